@@ -18,8 +18,8 @@ def run(case):
         for mname, md in c['methods']:
             def mk(mname=mname, cname=c['name']):
                 def m(self, x):
-                    if isinstance(x, tuple): raise excs[x[1]]()
-                    return ('body', cname, mname, self)
+                    if isinstance(x, tuple) and x[0] == 'raise': raise excs[x[1]]()
+                    return ('body', cname, mname, self, x)
                 m.__name__ = mname
                 return m
             fn = mk()
@@ -27,6 +27,10 @@ def run(case):
                 if kinds.get(cid) == 'raises':
                     # a raises contract that forbids exactly its own exception class among the scenario's classes
                     dec = deal.raises(*[excs[j] for j in raises_ids if j != cid])
+                elif kinds.get(cid) == 'post':
+                    dec = deal.post((lambda cid: (lambda r: r[4] != ('out', cid)))(cid))
+                elif kinds.get(cid) == 'ensure':
+                    dec = deal.ensure((lambda cid: (lambda _: _.result[4] != ('out', cid)))(cid))
                 else:
                     dec = deal.pre((lambda cid: (lambda self, x: x != cid))(cid))
                 for cell in dec.__closure__ or ():
@@ -65,18 +69,18 @@ def run(case):
                 try:
                     if kinds.get(cid) == 'raises':
                         getattr(inst, mname)(('raise', cid)); continue
-                    r = getattr(inst, mname)(cid)
+                    r = getattr(inst, mname)(('out', cid) if kinds.get(cid) in ('post', 'ensure') else cid)
                     selfs.add('instance' if r[3] is inst else ('class' if r[3] is cls else 'other'))
                 except deal.PreContractError:
                     enforced.append(cid)
-                except deal.RaisesContractError:
+                except (deal.RaisesContractError, deal.PostContractError):
                     enforced.append(cid)
                 except BaseException as e:
                     if not (kinds.get(cid) == 'raises' and isinstance(e, excs[cid])):
                         selfs.add('error:' + type(e).__name__)
             res[attempt] = (enforced, sorted(selfs))
         got = list(di.get_contracts(getattr(cls, mname)))
-        recs = [cid_of.get(id(r._wrapped), '?') for r in got if isinstance(r, di.Pre)] + [cid_of.get(id(r._wrapped), '?') for r in got if isinstance(r, di.Raises)]
+        recs = [cid_of.get(id(r._wrapped), '?') for T in (di.Pre, di.Post, di.Ensure, di.Raises) for r in got if type(r) is T]
         mro = '>'.join(k.__name__ for k in cls.__mro__)
         out.append({'line': f'{cname}.{mname}=' + ','.join(str(x) for x in recs) + ' mro=' + mro,
                     'enforced_first': res[1][0], 'enforced_second': res[2][0], 'self_first': res[1][1], 'self_second': res[2][1]})
